@@ -107,3 +107,58 @@ Example C13_all_or_nothing_example :
   make_all_uci Ink.Gen.Tables.tables startpos_board [lit "e2e4"; lit "e7e5"; lit "g1f3"; lit "e8e6"]
   = (inl MoveDoesNotExist, Some startpos_board).
 Proof. vm_compute. reflexivity. Qed.
+
+(* ================================================================================================================
+   GLUE (Proofs/ChessInstance.v, Proofs/Preserve.v): make_all_uci is all-or-nothing WITHOUT the hypothesis "legal moves
+   preserve good" of C13_make_all_uci_all_or_nothing.  (As stated there, for good = wf /\ rights_wf /\ half < 4096, that
+   hypothesis is false: from a board with the side not to move in check a pseudo-legal move captures the king, and at
+   clock 4095 a quiet move leaves the range.)  The invariant that IS preserved:
+     good_chess T n b := wf b /\ rights_wf b /\ ep_free b /\ is_valid T b /\ half b + n < 4096
+   with n = the number of move texts, i.e. the clock stays below 4096 along the whole list.
+   ================================================================================================================ *)
+Require Import Ink.Proofs.AttackProofs Ink.Proofs.LayoutProofs Ink.Proofs.Preserve Ink.Proofs.ChessInstance.
+
+Theorem C13_good_chess_meaning : forall (T : Tables.t) (n : nat) (b : board),
+  good_chess T n b <->
+  wf b = true /\ rights_wf b = true /\ ep_free b = true /\ is_valid T b = true /\ half b + N.of_nat n < 4096.
+Proof. exact (fun T n b => iff_refl _). Qed.
+Print Assumptions C13_good_chess_meaning.
+
+Theorem C13_tables_chess_ok_meaning : forall T : Tables.t,
+  tables_chess_ok T =
+  tables_castle_ok T && tables_attacks_ok T && tables_bounded T && tables_geom_ok T && tables_rank18_ok T.
+Proof. exact (fun T => eq_refl). Qed.
+Print Assumptions C13_tables_chess_ok_meaning.
+
+(* the preservation fact that was the hypothesis, in the form that is true *)
+Theorem C13_legal_move_preserves_good_chess : forall (T : Tables.t), tables_chess_ok T = true ->
+  forall (n : nat) (b : board) (m : move) (b1 : board),
+  good_chess T (S n) b -> In m (gen_pseudo T b) -> make b m = Some b1 -> is_valid T b1 = true -> good_chess T n b1.
+Proof. exact good_chess_step. Qed.
+Print Assumptions C13_legal_move_preserves_good_chess.
+
+Theorem C13_make_all_uci_all_or_nothing_chess : forall (T : Tables.t), tables_chess_ok T = true ->
+  forall (b : board) (ss : list str) (e : uci_err), good_chess T (length ss) b ->
+  fst (make_all_uci T b ss) = inl e -> snd (make_all_uci T b ss) = Some b.
+Proof. exact make_all_uci_all_or_nothing_chess. Qed.
+Print Assumptions C13_make_all_uci_all_or_nothing_chess.
+
+(* no panic arm is reached *)
+Theorem C13_make_all_uci_total_chess : forall (T : Tables.t), tables_chess_ok T = true ->
+  forall (b : board) (ss : list str), good_chess T (length ss) b -> exists b', snd (make_all_uci T b ss) = Some b'.
+Proof. exact make_all_uci_total_chess. Qed.
+Print Assumptions C13_make_all_uci_total_chess.
+
+(* for the tables of the current tree the table condition is gone *)
+Theorem C13_gen_tables_chess_ok : tables_chess_ok Ink.Gen.Tables.tables = true.
+Proof. exact gen_tables_chess_ok. Qed.
+Print Assumptions C13_gen_tables_chess_ok.
+
+Theorem C13_make_all_uci_all_or_nothing_tables : forall (b : board) (ss : list str) (e : uci_err),
+  good_chess Ink.Gen.Tables.tables (length ss) b ->
+  fst (make_all_uci Ink.Gen.Tables.tables b ss) = inl e -> snd (make_all_uci Ink.Gen.Tables.tables b ss) = Some b.
+Proof. exact make_all_uci_all_or_nothing_gen. Qed.
+Print Assumptions C13_make_all_uci_all_or_nothing_tables.
+
+Example C13_good_chess_startpos : good_chess Ink.Gen.Tables.tables 3965 startpos_board.
+Proof. exact good_chess_startpos. Qed.
